@@ -33,6 +33,7 @@ def check(ck):
         _nothing_runs(ck, repo)
     with ck.rule("R6"):
         _cycle_traversal(ck, repo)
+        single_root_traversal(ck, repo)
     with ck.rule("R7"):
         c05._usage_coverage(ck, repo)
         c06._scoped_context(ck, repo, w)
@@ -379,6 +380,46 @@ def _nothing_runs(ck, repo):
     c = FuncView(e).maybe_call("bake_execute")
     ok = c is not None and [unparse(a) for a in c.args] == ["self._perform_query", "self._perform_subscription"]
     ck.ob("Engine.cook: the executors wrap _perform_query / _perform_subscription (the gates above)", ok, e, c or e.node, construct="gate:wired")
+
+
+def single_root_traversal(ck, repo):
+    """SingleRootField looks through named and inline fragments: the root of a subscription may be a spread
+    (shared with C14.R2: a subscription with several root fields must get one errors-only response)."""
+    f = repo.func(RULES_PKG + "single_root_field.py", "SingleRootField._validate_selection_set")
+    fv = FuncView(f)
+    p = f.positional_params  # self, operation, selection_set, fragments, path
+    rec = [c for c in fv.calls(f.name)]
+    by_kind = {}
+    for c in rec:
+        for t, o in fv.conditions(c):
+            if o == "T" and t.startswith("isinstance(selected, "):
+                by_kind[t[len("isinstance(selected, "):-1]] = c
+    sp = by_kind.get("FragmentSpreadNode")
+    ok = sp is not None and isinstance(fv.stmt_of(sp), ast.Return) and unparse(sp.args[1]).endswith(".selection_set") and unparse(sp.args[1]) != "selected.selection_set"
+    ck.ob("single-root-field: a root that is a named-fragment spread is judged by the fragment's selection set", ok, f, sp or f.node, construct="single-root:spread",
+          detail="`subscription { ...F } fragment F on Subscription { a b }` selects two root fields")
+    if sp is not None:
+        frag = unparse(sp.args[1]).rsplit(".", 1)[0]
+        src = [n for n in walk_no_nested(f.node) if isinstance(n, ast.Assign) and unparse(n.targets[0]) == frag]
+        ck.ob("single-root-field: the fragment is looked up by the spread's name", len(src) == 1 and unparse(src[0].value) == f"_find_fragment({p[3]}, selected.name.value)", f,
+              src[0] if src else sp, construct="single-root:lookup")
+    il = by_kind.get("InlineFragmentNode")
+    ok = il is not None and isinstance(fv.stmt_of(il), ast.Return) and unparse(il.args[1]) == "selected.selection_set"
+    ck.ob("single-root-field: a root that is an inline fragment is judged by its selection set", ok, f, il or f.node, construct="single-root:inline")
+    err = [r for r in fv.returns() if "graphql_error_from_nodes" in unparse(r.value)]
+    ok = len(err) == 1 and set(fv.conditions(err[0])) == {("nb_selections > 1", "T")}
+    src = [n for n in walk_no_nested(f.node) if isinstance(n, ast.Assign) and unparse(n.targets[0]) == "nb_selections"]
+    ok = ok and len(src) == 1 and unparse(src[0].value) == f"len({p[2]}.selections)"
+    ck.ob("single-root-field: more than one selection at any level reached this way is an error", ok, f, err[0] if err else f.node, construct="single-root:count")
+    ff = repo.func(RULES_PKG + "single_root_field.py", "_find_fragment")
+    r = [x for x in FuncView(ff).returns() if unparse(x.value) != "None"]
+    ok = len(r) == 1 and (f"{unparse(r[0].value)}.name.value == {ff.positional_params[1]}", "T") in FuncView(ff).conditions(r[0])
+    ck.ob("single-root-field: _find_fragment returns the fragment of that name", ok, ff, ff.node, construct="single-root:find")
+    v = repo.func(RULES_PKG + "single_root_field.py", "SingleRootField.validate")
+    vv = FuncView(v)
+    c = vv.maybe_call("_validate_selection_set")
+    ok = c is not None and (f"operation.operation_type == 'subscription'", "T") in vv.conditions(c) and [unparse(a) for a in c.args][:3] == ["operation", "operation.selection_set", "definitions['FragmentDefinition']"]
+    ck.ob("single-root-field: applied to every subscription operation with the document's fragments", ok, v, c or v.node, construct="single-root:applied")
 
 
 def _cycle_traversal(ck, repo):
